@@ -56,26 +56,78 @@ def r15_1(ctx, prog, crate):
         ctx.check(ps == {(me, (f,)), (other, (f,))}, "R15.1", ["overwrite", f, "own-field-only"],
                   "field `%s` of the merged options derives from %s, expected exactly self.%s and other.%s"
                   % (f, sorted("%s.%s" % (a, ".".join(map(str, p))) for a, p in ps), f, f), b.where(bi))
-        # the combiner: the call both sides meet in
-        comb = []
-        for x in srcs:
-            if x.kind != "call":
+    # what each field of the result is, path by path (lib/patheval.py): `self.f if it is set, else other.f` in any spelling
+    from lib.patheval import PathEval
+    from lib.symexpr import show
+    sums = PathEval(b).run()
+    if not ctx.check(sums is not None and sums, "R15.1", ["overwrite", "summarisable"], "BenchOptions::overwrite has a loop or too many paths", b.where(0)):
+        return
+    COMB = ("std::option::Option::or", "counter::collection::CounterSet::overwrite")
+
+    def leaves(e, out):
+        if isinstance(e, tuple):
+            if e and e[0] == "arg":
+                out.add((e[1], e[2][:1]))
+                return
+            if e and e[0] in ("ptr", "sptr") and isinstance(e[1], tuple) and not isinstance(e[1][0], tuple):
+                out.add((e[1][0], e[1][1][:1]))
+                return
+            for x in e:
+                leaves(x, out)
+
+    def combiner(e):
+        """first node `comb(x, y)` with x only from self.f and y only from other.f, or with the sides swapped"""
+        found = []
+
+        def walk(x):
+            if isinstance(x, tuple):
+                if x and x[0] in ("site", "call") and x[1] in COMB:
+                    args = x[3] if x[0] == "site" else x[2]
+                    if len(args) == 2:
+                        l0, l1 = set(), set()
+                        leaves(args[0], l0)
+                        leaves(args[1], l1)
+                        found.append((x[1], l0, l1))
+                for y in x:
+                    walk(y)
+        walk(e)
+        return found
+    for f in rv["fields"]:
+        mine, theirs = {(1, (f,))}, {(2, (f,))}
+        for n, sm in enumerate(sums):
+            v = sm.ret
+            if not (v[0] == "adt" and f in v[4]):
+                ctx.fail("R15.1", ["overwrite", f, "one-combiner"], "the result of overwrite is not a BenchOptions aggregate on path %d" % n, b.where(bi))
                 continue
-            c = b.call_at(x.b)
-            if len(c.args) != 2:
+            e = v[3][v[4].index(f)]
+            lv = set()
+            leaves(e, lv)
+            cm = combiner(e)
+            # is `self.f is Some` decided on this path?
+            is_some = None
+            for a, pol in sm.conds:
+                if a[0] == "discr" and a[1] == ("arg", 1, (f,)) and a[2] in (0, 1):
+                    is_some = (a[2] == 1)
+                elif a[0] == "bool" and a[1][0] == "site" and a[1][1].endswith(("Option::is_some", "Option::is_none")):
+                    l0 = set()
+                    leaves(a[1][3], l0)
+                    if l0 == mine:
+                        is_some = pol if a[1][1].endswith("is_some") else (not pol)
+            if len(cm) == 1 and lv == mine | theirs:
+                callee, l0, l1 = cm[0]
+                ctx.check(l0 == mine and l1 == theirs, "R15.1", ["overwrite", f, "self-first"],
+                          "field `%s`: the combiner's receiver is other.%s - the overriding side loses (%s)" % (f, f, show(e)), b.where(bi),
+                          detail={"field": f, "combiner": callee, "receiver": "self." + f})
+            elif not cm and is_some is True:
+                ctx.check(lv == mine, "R15.1", ["overwrite", f, "self-first"], "field `%s`: when self.%s is set the result is %s" % (f, f, show(e)), b.where(bi))
+            elif not cm and is_some is False:
+                ctx.check(lv == theirs and e == ("arg", 2, (f,)), "R15.1", ["overwrite", f, "falls-back-to-other"],
+                          "field `%s`: when self.%s is unset the result is %s, expected other.%s" % (f, f, show(e), f), b.where(bi))
+            else:
+                ctx.fail("R15.1", ["overwrite", f, "one-combiner"], "field `%s` = %s: neither `self.%s.or(other.%s)` nor a choice on whether self.%s is set"
+                         % (f, show(e), f, f, f), b.where(bi))
                 continue
-            p0 = {(y.a, y.b[:1]) for y in b.prov.op_src(c.args[0]) if y.kind == "param"}
-            p1 = {(y.a, y.b[:1]) for y in b.prov.op_src(c.args[1]) if y.kind == "param"}
-            if p0 and p1 and (p0 | p1) == {(me, (f,)), (other, (f,))} and (len(p0) == 1 and len(p1) == 1) and p0 != p1:
-                comb.append((c, p0, p1))
-        if ctx.check(len(comb) == 1, "R15.1", ["overwrite", f, "one-combiner"],
-                     "field `%s`: expected one call combining self.%s with other.%s, found %d" % (f, f, f, len(comb)), b.where(bi)):
-            c, p0, p1 = comb[0]
-            ctx.check(c.callee in ("std::option::Option::or", "counter::collection::CounterSet::overwrite"), "R15.1",
-                      ["overwrite", f, "combiner-kind"], "field `%s` is combined with `%s`" % (f, c.callee), c.line())
-            ctx.check(p0 == {(me, (f,))}, "R15.1", ["overwrite", f, "self-first"],
-                      "field `%s`: the combiner's receiver is other.%s - the overriding side loses" % (f, f), c.line(),
-                      detail={"field": f, "combiner": c.callee, "receiver": "self." + f})
+            ctx.ok("R15.1", "overwrite|%s|one-combiner" % f)
     # CounterSet::overwrite
     cs = prog.body("counter::collection::CounterSet::overwrite", crate)
     if ctx.anchor("R15.1", "CounterSet::overwrite", 1 if cs else 0, 1):
